@@ -220,6 +220,7 @@ func (t *Task) DeepCopy() *Task {
 		Platforms:            deepcopy.Slice(t.Platforms),
 		Location:             t.Location.DeepCopy(),
 		Requires:             t.Requires.DeepCopy(),
+		Watch:                t.Watch,
 		Namespace:            t.Namespace,
 	}
 	return c
